@@ -31,6 +31,7 @@ ASSUMPTIONS = [
     'change emitter state; the silence flag is checked after each emit)',
     'reporter: reset() sets the value (to 0), which re-arms completion when 0 is below the maximum; reset(max) '
     'that raises the maximum re-arms too',
+    'senders are value-equal fresh objects at every use (class with __eq__/__hash__): the filter must compare by equality as the statement says',
 ]
 STUBS = []
 OUTSIDE = ['longer histories', 'callbacks that raise or that connect/unconnect re-entrantly']
